@@ -1,14 +1,14 @@
 (* Property C10, Container / Document half — statements only.  Each is closed by [exact] of a lemma proved elsewhere. *)
 From Coq Require Import List ZArith Bool. Import ListNotations.
-Require Import Package Pkgproof PkgStepWF PkgStepWF4 PkgCloneproof PkgPairproof PkgHistproof PkgInstproof.
+Require Import Package Pkgproof PkgStepWF PkgStepWF4 PkgCloneproof PkgPairproof PkgHistproof PkgLocalproof PkgLocalproof2 PkgLocalproof3 PkgInstproof.
 Open Scope Z_scope.
 
 (* C10_lazy_parts: a clone has no path, and the part map of a path-less document does not depend on the file system:
    deleting or overwriting the source file after cloning cannot be observed through the clone (pinned and repaired code) *)
-Theorem C10_lazy_parts : forall (xml bytes kid : Type) (ser : xml -> bytes) (par : bytes -> xml) (mask : xml -> xml)
+Theorem C10_lazy_parts : forall (xml bytes kid : Type) (ser : xml -> bytes) (par : bytes -> xml) (proj : Type) (mask : xml -> proj)
   (fx : fixes) (fs fs' : fsys bytes kid) (d : document xml bytes) (n : name),
-  view xml bytes kid par mask fs' (snd (d_clone xml bytes kid ser par fx fs d)) n
-  = view xml bytes kid par mask fs (snd (d_clone xml bytes kid ser par fx fs d)) n.
+  view xml bytes kid par proj mask fs' (snd (d_clone xml bytes kid ser par fx fs d)) n
+  = view xml bytes kid par proj mask fs (snd (d_clone xml bytes kid ser par fx fs d)) n.
 Proof. exact clone_lazy. Qed.
 Print Assumptions C10_lazy_parts.
 
@@ -20,9 +20,9 @@ Print Assumptions C10_clone_has_no_path.
 (* independence: the state of (file system, original, clone) is a product; an operation on one document is a function of
    the file system and that document only, and a path-less document does not read the file system (C10_lazy_parts):
    [step] has the type  fixes -> fsys * document -> op -> (fsys * document) * out , the other document is not an argument. *)
-Theorem C10_doc_independent : forall (xml bytes kid : Type) (par : bytes -> xml) (mask : xml -> xml)
+Theorem C10_doc_independent : forall (xml bytes kid : Type) (par : bytes -> xml) (proj : Type) (mask : xml -> proj)
   (fs fs' : fsys bytes kid) (d : document xml bytes) (n : name),
-  cpath bytes (cont xml bytes d) = None -> view xml bytes kid par mask fs' d n = view xml bytes kid par mask fs d n.
+  cpath bytes (cont xml bytes d) = None -> view xml bytes kid par proj mask fs' d n = view xml bytes kid par proj mask fs d n.
 Proof. exact view_no_path. Qed.
 Print Assumptions C10_doc_independent.
 
@@ -41,19 +41,19 @@ Print Assumptions C10_clone_modifies_original_refuted.
 (* C10_doc_equal_at_birth (repaired code), for every state with FsOK and WFd: the clone shows the original's part map, and cloning leaves the original's part map as it was *)
 Theorem C10_doc_equal_at_birth :
   forall (xml bytes kid : Type) (ser : xml -> bytes)
-           (par : bytes -> xml) (mask : xml -> xml),
+           (par : bytes -> xml) (proj : Type) (mask : xml -> proj),
          (forall x : xml, par (ser x) = x) ->
          forall (fs : fsys bytes kid) (d : document xml bytes),
          FsOK bytes kid fs ->
          WFd xml bytes kid fs d ->
          (forall n : name,
-          view xml bytes kid par mask fs
+          view xml bytes kid par proj mask fs
             (snd (d_clone xml bytes kid ser par FIXED fs d)) n =
-          view xml bytes kid par mask fs d n) /\
+          view xml bytes kid par proj mask fs d n) /\
          (forall n : name,
-          view xml bytes kid par mask fs
+          view xml bytes kid par proj mask fs
             (fst (d_clone xml bytes kid ser par FIXED fs d)) n =
-          view xml bytes kid par mask fs d n).
+          view xml bytes kid par proj mask fs d n).
 Proof. exact clone_equal_at_birth. Qed.
 Print Assumptions C10_doc_equal_at_birth.
 
@@ -64,7 +64,7 @@ Theorem C10_doc_equal_at_birth_reachable :
            (entries : xml -> mentries) (with_entries : mentries -> xml -> xml)
            (kids : xml -> list kid) (mime : bytes -> mtype)
            (mime_bytes : mtype -> bytes) (rdf0 : bytes) 
-           (mask : xml -> xml),
+           (proj : Type) (mask : xml -> proj),
          (forall x : xml, par (ser x) = x) ->
          forall (s0 : fsys bytes kid * document xml bytes)
            (os : list (op xml bytes)),
@@ -78,13 +78,13 @@ Theorem C10_doc_equal_at_birth_reachable :
              (run xml bytes kid ser par pretty stamp entries with_entries kids
                 mime mime_bytes rdf0 FIXED s0 os) in
          (forall n : name,
-          view xml bytes kid par mask fs
+          view xml bytes kid par proj mask fs
             (snd (d_clone xml bytes kid ser par FIXED fs d)) n =
-          view xml bytes kid par mask fs d n) /\
+          view xml bytes kid par proj mask fs d n) /\
          (forall n : name,
-          view xml bytes kid par mask fs
+          view xml bytes kid par proj mask fs
             (fst (d_clone xml bytes kid ser par FIXED fs d)) n =
-          view xml bytes kid par mask fs d n).
+          view xml bytes kid par proj mask fs d n).
 Proof. exact clone_equal_at_birth_reachable. Qed.
 Print Assumptions C10_doc_equal_at_birth_reachable.
 
@@ -95,19 +95,19 @@ Theorem C10_other_untouched :
            (entries : xml -> mentries) (with_entries : mentries -> xml -> xml)
            (kids : xml -> list kid) (mime : bytes -> mtype)
            (mime_bytes : mtype -> bytes) (rdf0 : bytes) 
-           (mask : xml -> xml) (fs : fsys bytes kid)
+           (proj : Type) (mask : xml -> proj) (fs : fsys bytes kid)
            (d other : document xml bytes) (o : op xml bytes),
          (forall (t : target) (pk : packaging) (pty : bool),
           o = OSave t pk pty ->
           cpath bytes (cont xml bytes other) <> Some (tgt_id t)) ->
          forall n : name,
-         view xml bytes kid par mask
+         view xml bytes kid par proj mask
            (fst
               (fst
                  (step xml bytes kid ser par pretty stamp entries with_entries
                     kids mime mime_bytes rdf0 FIXED (
                     fs, d) o))) other n =
-         view xml bytes kid par mask fs other n.
+         view xml bytes kid par proj mask fs other n.
 Proof. exact other_untouched. Qed.
 Print Assumptions C10_other_untouched.
 
@@ -118,7 +118,7 @@ Theorem C10_independent_step :
            (entries : xml -> mentries) (with_entries : mentries -> xml -> xml)
            (kids : xml -> list kid) (mime : bytes -> mtype)
            (mime_bytes : mtype -> bytes) (rdf0 : bytes) 
-           (mask : xml -> xml) (fs : fsys bytes kid)
+           (proj : Type) (mask : xml -> proj) (fs : fsys bytes kid)
            (d1 d2 : document xml bytes) (a : side * op xml bytes),
          let
          '(fs', d1', d2') :=
@@ -129,14 +129,14 @@ Theorem C10_independent_step :
               d2' = d2 /\
               (cpath bytes (cont xml bytes d2) = None ->
                forall n : name,
-               view xml bytes kid par mask fs' d2 n =
-               view xml bytes kid par mask fs d2 n)
+               view xml bytes kid par proj mask fs' d2 n =
+               view xml bytes kid par proj mask fs d2 n)
           | OnClone =>
               d1' = d1 /\
               (respects xml bytes (cpath bytes (cont xml bytes d1)) a ->
                forall n : name,
-               view xml bytes kid par mask fs' d1 n =
-               view xml bytes kid par mask fs d1 n)
+               view xml bytes kid par proj mask fs' d1 n =
+               view xml bytes kid par proj mask fs d1 n)
           end.
 Proof. exact pstep_independent. Qed.
 Print Assumptions C10_independent_step.
@@ -148,7 +148,7 @@ Theorem C10_clone_ops_leave_original :
            (entries : xml -> mentries) (with_entries : mentries -> xml -> xml)
            (kids : xml -> list kid) (mime : bytes -> mtype)
            (mime_bytes : mtype -> bytes) (rdf0 : bytes) 
-           (mask : xml -> xml) (h : list (side * op xml bytes))
+           (proj : Type) (mask : xml -> proj) (h : list (side * op xml bytes))
            (fs : fsys bytes kid) (d1 d2 : document xml bytes),
          List.Forall
            (fun a : side * op xml bytes =>
@@ -160,8 +160,8 @@ Theorem C10_clone_ops_leave_original :
             mime mime_bytes rdf0 (fs, d1, d2) h in
           d1' = d1 /\
           (forall n : name,
-           view xml bytes kid par mask fs' d1 n =
-           view xml bytes kid par mask fs d1 n).
+           view xml bytes kid par proj mask fs' d1 n =
+           view xml bytes kid par proj mask fs d1 n).
 Proof. exact clone_ops_leave_original. Qed.
 Print Assumptions C10_clone_ops_leave_original.
 
@@ -172,7 +172,7 @@ Theorem C10_original_ops_leave_clone :
            (entries : xml -> mentries) (with_entries : mentries -> xml -> xml)
            (kids : xml -> list kid) (mime : bytes -> mtype)
            (mime_bytes : mtype -> bytes) (rdf0 : bytes) 
-           (mask : xml -> xml) (h : list (side * op xml bytes))
+           (proj : Type) (mask : xml -> proj) (h : list (side * op xml bytes))
            (fs : fsys bytes kid) (d1 d2 : document xml bytes),
          cpath bytes (cont xml bytes d2) = None ->
          List.Forall (fun a : side * op xml bytes => fst a = OnOriginal) h ->
@@ -182,10 +182,39 @@ Theorem C10_original_ops_leave_clone :
             mime mime_bytes rdf0 (fs, d1, d2) h in
           d2' = d2 /\
           (forall n : name,
-           view xml bytes kid par mask fs' d2 n =
-           view xml bytes kid par mask fs d2 n).
+           view xml bytes kid par proj mask fs' d2 n =
+           view xml bytes kid par proj mask fs d2 n).
 Proof. exact original_ops_leave_clone. Qed.
 Print Assumptions C10_original_ops_leave_clone.
+
+(* C10_doc_independent "in any interleaving": from a pair (original, clone) — the clone has no path — after ANY interleaved history
+   (no re-open; the clone is not saved onto the file the original was opened from) the original and the clone are exactly
+   the documents each would be after its own operations alone *)
+Theorem C10_doc_independent_interleaving :
+  forall (xml bytes kid : Type) (ser : xml -> bytes)
+           (par : bytes -> xml) (pretty stamp : xml -> xml)
+           (entries : xml -> mentries) (with_entries : mentries -> xml -> xml)
+           (kids : xml -> list kid) (mime : bytes -> mtype)
+           (mime_bytes : mtype -> bytes) (rdf0 : bytes)
+           (h : list (side * op xml bytes)) (fs : fsys bytes kid)
+           (d1 d2 : document xml bytes),
+         P xml bytes d2 = None ->
+         List.Forall (fair xml bytes (P xml bytes d1)) h ->
+         let
+         '(_, d1F, d2F) :=
+          prun xml bytes kid ser par pretty stamp entries with_entries kids
+            mime mime_bytes rdf0 (fs, d1, d2) h in
+          d1F =
+          snd
+            (run xml bytes kid ser par pretty stamp entries with_entries kids
+               mime mime_bytes rdf0 FIXED (fs, d1)
+               (ops_of xml bytes OnOriginal h)) /\
+          d2F =
+          snd
+            (run xml bytes kid ser par pretty stamp entries with_entries kids
+               mime mime_bytes rdf0 FIXED (fs, d2) (ops_of xml bytes OnClone h)).
+Proof. exact interleaving_commutes. Qed.
+Print Assumptions C10_doc_independent_interleaving.
 
 Example C10_example : FsOK cbytes Z ex_fs /\ WFd cxml cbytes Z ex_fs ex_doc /\ (forall x, cpar (cser x) = x).
 Proof. exact (conj ex_fs_ok (conj ex_doc_wf cpar_cser)). Qed.
